@@ -93,7 +93,26 @@ func c12Gen(seed int64, idx int) c12Case {
 		yang.SortSections(m)
 		c12Shuffle(r, m, true)
 	case 8:
-		if idx%40 >= 30 {
+		if (idx/10)%5 == 4 {
+			// augments whose target is a choice and that add cases in short form (a data node directly under
+			// the augment), at module level and inside a uses: each added node is a case of its own
+			head := func() *yang.Stmt {
+				return yang.S("module", "fx-ch", yang.S("namespace", "urn:verif:fx-ch"), yang.S("prefix", "fc"))
+			}
+			str := func(n string) *yang.Stmt { return yang.S("leaf", n, yang.S("type", "string")) }
+			src := head()
+			src.Add(yang.S("container", "top", yang.S("choice", "ch", str("a"), yang.S("case", "named", str("n1")))),
+				yang.S("augment", "/fc:top/fc:ch", str("b"), yang.S("container", "cb", str("x")), yang.S("case", "late", str("l1"))),
+				yang.S("grouping", "g", yang.S("choice", "gch", str("g1"))),
+				yang.S("container", "u", yang.S("uses", "g", yang.S("augment", "gch", str("g2"), yang.S("leaf-list", "g3", yang.S("type", "string"))))))
+			inl := head()
+			inl.Add(yang.S("container", "top", yang.S("choice", "ch", str("a"), yang.S("case", "named", str("n1")), str("b"), yang.S("container", "cb", str("x")), yang.S("case", "late", str("l1")))),
+				yang.S("container", "u", yang.S("choice", "gch", str("g1"), str("g2"), yang.S("leaf-list", "g3", yang.S("type", "string")))))
+			c.ms = &yang.ModSet{Mods: []*yang.Stmt{src}}
+			c.inlined = &yang.ModSet{Mods: []*yang.Stmt{inl}}
+			return c
+		}
+		if (idx/10)%5 == 3 {
 			// context node of a when written on a uses, and on an augment inside that uses whose body
 			// holds a further uses: every introduced node carries the when, to be run on its parent
 			head := func() *yang.Stmt {
@@ -117,7 +136,7 @@ func c12Gen(seed int64, idx int) c12Case {
 			c.inheritedWhens = map[string]bool{"sel = 'a'": true, "sel2 = 'b'": true}
 			return c
 		}
-		if idx%40 >= 20 {
+		if (idx/10)%5 == 2 {
 			// two different groupings named x in disjoint scopes, one reached from the other: x (in a1) uses y,
 			// y contains its own x and uses it.  No grouping refers to itself.
 			head := func() *yang.Stmt {
@@ -158,7 +177,7 @@ func c12Gen(seed int64, idx int) c12Case {
 			yang.S("typedef", "x", yang.S("type", "string", yang.S("length", "1..9"))),
 			yang.S("grouping", "h", yang.S("leaf", "h-of-lib", yang.S("type", "string"))))
 		c.inlined = &yang.ModSet{Mods: []*yang.Stmt{inl, libInl}}
-		if idx%20 >= 10 {
+		if (idx/10)%5 == 1 {
 			c12Shuffle(r, user, true)
 		}
 		return c
@@ -410,7 +429,10 @@ func (p *c12) Run(tier string, seed int64, idx int) core.CaseResult {
 	}
 	// the definitions of the first module moved into a submodule it includes: the groupings are then
 	// defined in the submodule and used from the module; nothing but the submodule attribution may change
-	if idx%3 == 0 {
+	// (not for the augment-into-choice pair: the implicit case the parser wraps around a shorthand node that an
+	// augment adds carries the (sub)module of the choice, not of the augment — recorded in DESIGN 10.12 as not
+	// covered; the pair asserts the structure of the cases)
+	if idx%3 == 0 && c.ms.Mods[0].Arg != "fx-ch" {
 		if sp := c12SplitIntoSubmodule(c.ms); sp != nil {
 			stexts := sp.Texts(nil)
 			sr := compileTexts(stexts, nil, feats, nil, true)
